@@ -19,7 +19,7 @@
 (* BATCH COMPOSITIONS (classification sorts the batch; results are applied in      *)
 (* group-id order; writes are flushed in stream-id order) — checked on the real     *)
 (* code by Trace_Pipeline (same batches => same bytes).                            *)
-EXTENDS Naturals, Integers, Sequences, FiniteSets, TLC
+EXTENDS Naturals, Integers, Sequences, FiniteSets, FiniteSetsExt, TLC
 
 CONSTANTS
   N,          \* number of worker threads
@@ -78,7 +78,9 @@ VARIABLES
 
 vars == <<pcP, tokLeft, nextP, prio, seq, queue, closed, tokId, pcW, held, rawBuf, arrived, claimNext, nBuf, batches, rounds>>
 
-QSize == LET RECURSIVE S(_) S(Q) == IF Q = {} THEN 0 ELSE LET x == CHOOSE y \in Q : TRUE IN x.size + S(Q \ {x}) IN S(queue)
+\* (FoldSet is evaluated natively; a RECURSIVE operator over a set argument is re-evaluated
+\*  exponentially often by TLC inside actions, where lazy argument values are not cached)
+QSize == FoldSet(LAMBDA x, acc : x.size + acc, 0, queue)
 
 \* ContigTask::cmp : higher priority, then higher cost, then lower sequence
 Before(a, b) == \/ a.prio > b.prio
